@@ -265,6 +265,9 @@ func (r *Renderer) exprSide(e Expr, ctx int, right bool) string {
 	case *StrLit:
 		return "\"" + n.S + "\""
 	case *Capref:
+		if n.Idx == 0 {
+			return "$0" // the text matched by the innermost pattern
+		}
 		g := n.Pat.Groups[n.Idx-1]
 		if n.Named && g.Name != "" {
 			return "$" + g.Name
